@@ -24,6 +24,7 @@ Plan gen_c06(uint64_t seed, int tier)
     if (r.chance(3, 10))
     {
       p.cfg["sink" + std::to_string(i) + "_type"] = 1; // real FileSink
+      p.cfg["sink" + std::to_string(i) + "_notifier"] = Rng(seed ^ static_cast<uint64_t>(0x77 + i)).chance(1, 3) ? 1 : 0; // with FileEventNotifier callbacks
     }
   }
   fix_timescale(p);
